@@ -5,7 +5,7 @@ def _t(id, kind, elem=-1, impl=(), isErr=False):
 
 PTRS = list(range(10, 18))           # *T0..*T7
 IFACES = [20, 21, 22]
-IMPLS = {10: [20, 22, 23], 11: [20, 21, 22, 23], 12: [21, 22], 13: [22], 14: [22], 15: [22], 16: [22], 17: [22]}
+IMPLS = {10: [20, 22, 23, 24], 11: [20, 21, 22, 23, 24], 12: [21, 22], 13: [22], 14: [22], 15: [22], 16: [22], 17: [22]}
 
 TYPES = [
     _t(0, "iface", isErr=True), _t(1, "struct"), _t(2, "struct"), _t(3, "ptr", 1), _t(4, "ptr", 2),
@@ -15,21 +15,22 @@ for p in PTRS:
     TYPES.append(_t(p, "ptr", -1, IMPLS[p]))
 TYPES.append(_t(19, "struct"))
 for i in IFACES:
-    TYPES.append(_t(i, "iface", -1, [i]))
-TYPES.append(_t(23, "iface", -1, [20, 22, 23]))   # I3 = interface{ MI0(); MI2() }
+    TYPES.append(_t(i, "iface", -1, [i] if i != 20 else [20, 24]))
+TYPES.append(_t(23, "iface", -1, [20, 22, 23, 24]))   # I3 = interface{ MI0(); MI2() }
+TYPES.append(_t(24, "iface", -1, [20, 24]))           # I0x = interface{ MI0() }: another type with the method set of I0
 for n in range(8):
     TYPES.append(_t(30 + n, "slice", 10 + n))
 TYPES.append(_t(38, "slice", 19))
 for n in range(3):
     TYPES.append(_t(40 + n, "slice", 20 + n))
-TYPES.append(_t(50, "slice", 10, [20]))
+TYPES.append(_t(50, "slice", 10, [20, 24]))
 TYPES.append(_t(51, "slice", 11))
 for n in range(4):
     TYPES.append(_t(60 + n, "slice", 30 + n))
 TYPES.append(_t(64, "slice", 50))
 TYPES.append(_t(65, "slice", 51))
 TYPES.append(_t(70, "other"))
-TYPES.append(_t(71, "other", -1, [20]))   # ZI: an int8 with a value-receiver method, implements I0; its scripted value is always zero
+TYPES.append(_t(71, "other", -1, [20, 24]))   # ZI: an int8 with a value-receiver method, implements I0; its scripted value is always zero
 TYPES.append(_t(80, "other"))        # [2]*T0
 TYPES.append(_t(81, "other"))        # Huge = [1<<61]struct{}
 TYPES.append(_t(82, "other"))        # chan *Big, Big = [1<<17]byte (reflect.ChanOf refuses `chan Big`)
